@@ -357,7 +357,10 @@ class PayloadSA(Payload):
         if len(data):
             offset = 0
             while offset < len(data):
-                more, _, length = unpack_from('>BBH', data, offset)
+                try:
+                    more, _, length = unpack_from('>BBH', data, offset)
+                except struct_error:
+                    raise InvalidSyntax('Error parsing Proposal header')
                 start = offset + 4
                 end = offset + length
                 proposal = Proposal.parse(data[start:end])
